@@ -83,7 +83,11 @@ Proof.
     + destruct (reserve_noop c vv (wuw (start_of w)) (a_xs av) n HR Hroom) as [E1 E2].
       assert (Em : m (vv, wuw (start_of w)) = Ok tt (vv, wuw (start_of w))) by (unfold m; destruct exact; assumption).
       rewrite Em in Hrun. destruct Hrun as [_ Hgv]. exists vv. repeat split; auto.
-    + destruct Hadm as [Hr1|[Hf|[Ho|[Hg1 Hg2]]]]; try lia.
+    + destruct Hadm as [Hr1|[Hf|[Ho|[[Hg1 Hg2]|(Hrs & Hcl & Hbig)]]]]; try lia.
+      3:{ (* more bytes than any allocation can have: refused before the allocator is asked *)
+          exfalso.
+          destruct (reserve_layout_panic c vv (wuw (start_of w)) (a_xs av) n Hwf HR Hrs Hcl Hnov Hbig) as (u1 & u2 & E1 & E2 & _).
+          unfold m in Hrun. destruct exact; [rewrite E2 in Hrun|rewrite E1 in Hrun]; rewrite Hrun in H0; discriminate. }
       * (* a fixed capacity: refused *)
         exfalso. destruct exact.
         -- rewrite <- (rep_len _ _ _ HR) in Hr.
